@@ -68,7 +68,8 @@ func RunProperties(props []string, o RunOpts) (bad []string) {
 			pr.stats["module_functions"] = len(p.ModFuncs)
 			pr.stats["all_functions"] = len(p.AllFuncs)
 			pr.stats["callgraph_edges"] = edges
-			for _, rid := range GetProperty(id).Rules {
+			for _, spec := range GetProperty(id).Rules {
+				rid, tag := splitSpec(spec)
 				if o.OnlyRule != "" && rid != o.OnlyRule {
 					continue
 				}
@@ -77,7 +78,12 @@ func RunProperties(props []string, o RunOpts) (bad []string) {
 					obs = append([]core.Ob(nil), RunRule(c, rid)...)
 					ruleObs[rid] = obs
 				}
+				selected := 0
 				for _, ob := range obs {
+					if tag != "" && !ob.HasTag(tag) && ob.Kind != "vacuous" && ob.Kind != "unresolved-role" && !(ob.Kind == "undecided" && ob.Key == "panic") {
+						continue
+					}
+					selected++
 					if o.OnlyKey != "" && ob.Key != o.OnlyKey {
 						continue
 					}
@@ -85,6 +91,10 @@ func RunProperties(props []string, o RunOpts) (bad []string) {
 						ob.Detail = "[" + bc.Name + "] " + ob.Detail
 					}
 					pr.obs = append(pr.obs, ob)
+				}
+				if tag != "" && selected == 0 && o.OnlyKey == "" {
+					pr.obs = append(pr.obs, core.Ob{Rule: rid, Key: "view:" + tag, OK: false, Kind: "vacuous", Pos: "-",
+						Detail: "no obligation of rule " + rid + " carries the tag ‘" + tag + "’: the clause this property claims no longer resolves"})
 				}
 			}
 		}
@@ -135,14 +145,16 @@ func RunProperties(props []string, o RunOpts) (bad []string) {
 			}
 		}
 		var ruleRows []map[string]any
-		for _, rid := range prop.Rules {
+		for _, spec := range prop.Rules {
+			rid, tag := splitSpec(spec)
+			_ = tag
 			r := GetRule(rid)
 			doc, floor := "", 0
 			if r != nil {
 				doc, floor = r.Doc, r.Floor
 			}
 			st := perRule[rid]
-			ruleRows = append(ruleRows, map[string]any{"rule": rid, "applied": doc, "instances": st[0], "discharged": st[1], "exceptions": st[2], "floor": floor})
+			ruleRows = append(ruleRows, map[string]any{"rule": spec, "applied": doc, "instances": st[0], "discharged": st[1], "exceptions": st[2], "floor": floor})
 			fmt.Printf("   %-20s instances=%-4d discharged=%-4d floor=%d\n", rid, st[0], st[1], floor)
 		}
 		// samples: all failing obligations, all exceptions, and a spread of passing ones
@@ -196,6 +208,14 @@ func RunProperties(props []string, o RunOpts) (bad []string) {
 		}
 	}
 	return bad
+}
+
+// splitSpec splits "RULE#tag" into rule id and tag.
+func splitSpec(spec string) (string, string) {
+	if i := strings.Index(spec, "#"); i > 0 {
+		return spec[:i], spec[i+1:]
+	}
+	return spec, ""
 }
 
 func dedupe(in []string) []string {
